@@ -318,22 +318,92 @@ class ReShim:
     def sub(self, pattern, repl, s, count=0, flags=0):
         if not isinstance(s, SymStr):
             return _re.sub(pattern, repl, s, count, flags)
+        if not isinstance(repl, str) or '\\' in repl or count != 0:
+            raise Unsupported('re.sub with a non-constant replacement on a symbolic string')
         tree = _parse(pattern, flags)
-        # supported form: a single literal repeated one-or-more times ( e.g. r' +' ), replaced by a constant string
-        if len(tree) == 1 and tree[0][0] is C.MAX_REPEAT and tree[0][1][0] == 1 and tree[0][1][1] is MAXREP and len(tree[0][1][2]) == 1 \
-                and tree[0][1][2][0][0] is C.LITERAL and isinstance(repl, str) and '\\' not in repl and count == 0:
-            lit = chr(tree[0][1][2][0][1])
-            out, run = [], False
-            for c in s.ch:
-                if bool(c == lit):
-                    if not run:
-                        out += [K(x) for x in repl]
-                    run = True
-                else:
-                    out.append(c)
-                    run = False
-            return SymStr(out)
-        raise Unsupported('re.sub(%r) on a symbolic string' % pattern)
+        chars = [c.c for c in s.ch]
+        om = _OrderedMatcher(chars)
+        out = []
+        i, n = 0, len(chars)
+        while i <= n:
+            end = None
+            for cond, e in om.seq(list(tree), i, i == 0):
+                if ENG().decide(z3.simplify(cond)):
+                    end = e
+                    break
+            if end is None:
+                if i < n:
+                    out.append(s.ch[i])
+                i += 1
+            elif end == i:                      # empty match: replacement, then the character is copied
+                out += [K(x) for x in repl]
+                if i < n:
+                    out.append(s.ch[i])
+                i += 1
+            else:
+                out += [K(x) for x in repl]
+                i = end                          # (an empty match right after a non-empty one is allowed, as in Python >= 3.7)
+        return SymStr(out)
+
+
+class _OrderedMatcher(_SeqMatcher):
+    """candidate matches in the PRIORITY ORDER of Python's backtracking matcher: generator of (condition, end).
+    The first candidate whose condition holds is the match re.sub / re.match would report."""
+
+    def seq(self, items, i, head):
+        if not items:
+            yield z3.BoolVal(True), i
+            return
+        first, rest = items[0], items[1:]
+        for c1, e1 in self.item(first, i, head):
+            for c2, e2 in self.seq(rest, e1, False):
+                yield z3.And(c1, c2), e2
+
+    def item(self, item, i, head):
+        op, av = item
+        if op in (C.LITERAL, C.NOT_LITERAL, C.ANY, C.IN):
+            if i < self.n:
+                yield self.char_pred(op, av, self.ch[i]), i + 1
+        elif op is C.BRANCH:
+            for b in av[1]:
+                yield from self.seq(list(b), i, head)
+        elif op is C.SUBPATTERN:
+            if av[1] or av[2]:
+                raise Unsupported('inline regex flags')
+            yield from self.seq(list(av[3]), i, head)
+        elif op in (C.MAX_REPEAT, C.MIN_REPEAT):
+            lo, hi, body = av
+            hi = self.n - i + 1 if hi is MAXREP else hi
+            yield from self.rep(list(body), i, lo, hi, op is C.MAX_REPEAT, 0)
+        elif op is C.AT:
+            ends = self.item_ends(item, i, head)
+            for e, c in ends.items():
+                yield c, e
+        else:
+            raise Unsupported('regex operator %r' % op)
+
+    def rep(self, body, i, lo, hi, greedy, k):
+        """k iterations done so far, currently at i"""
+        can_stop = k >= lo
+        can_more = k < hi
+        if greedy:
+            if can_more:
+                for c1, e1 in self.seq(body, i, False):
+                    if e1 == i:
+                        continue
+                    for c2, e2 in self.rep(body, e1, lo, hi, greedy, k + 1):
+                        yield z3.And(c1, c2), e2
+            if can_stop:
+                yield z3.BoolVal(True), i
+        else:
+            if can_stop:
+                yield z3.BoolVal(True), i
+            if can_more:
+                for c1, e1 in self.seq(body, i, False):
+                    if e1 == i:
+                        continue
+                    for c2, e2 in self.rep(body, e1, lo, hi, greedy, k + 1):
+                        yield z3.And(c1, c2), e2
 
 
 # ------------------------------------------------------------------------------------------------ self test
@@ -373,4 +443,18 @@ def selftest(seed=5, per_pattern=25, fast=True):
             smf = z3.simplify(sym_match(pat, [z3.IntVal(ord(c)) for c in w], full=True))
             if z3.is_true(sm) != want or z3.is_true(smf) != wantf or not (z3.is_true(sm) or z3.is_false(sm)):
                 raise AssertionError('sequence matcher self-test: %r on %r: re says %s/%s, matcher says %s/%s' % (pat, w, want, wantf, sm, smf))
+    # re.sub on constant symbolic strings must agree with re.sub
+    from .core import Engine, set_engine
+    E = Engine(mode='sym')
+    set_engine(E)
+    try:
+        shim = ReShim()
+        for pat, repl in [(r' +', ' '), (r'\t|[\r\n]{1,2}', ' '), (r'a|ab', 'X'), (r'ab|a', 'X'), (r'[ab]+?c', '-'), (r'x*', '.'), (r'(a|b)c?', 'Q')]:
+            for _ in range(per_pattern):
+                w = ''.join(rnd.choice('ab c\t\n\rx') for _ in range(rnd.randint(0, 6)))
+                got = shim.sub(pat, repl, SymStr([K(ch) for ch in w])).concrete()
+                if got != _re.sub(pat, repl, w):
+                    raise AssertionError('re.sub shim self-test: %r on %r: re gives %r, shim gives %r' % (pat, w, _re.sub(pat, repl, w), got))
+    finally:
+        set_engine(None)
     return True
